@@ -435,7 +435,7 @@ func c10Case(ch choose.Chooser, cfg walkCfg, rec *ev.Recorder) error {
 		}
 		commit := wirePPCommitment(sub.Wire)
 		pub, e := crypto.SigToPub(commit.Bytes(), normSig(sigB))
-		if e != nil || crypto.PubkeyToAddress(*pub) != verifSignerAddr {
+		if e != nil || crypto.PubkeyToAddress(*pub) != sub.Signer {
 			return fmt.Errorf("%s: the signature on the wire is not the configured signer's signature over the commitment recomputed from the wire message\n  schedule: %s", desc, r.key())
 		}
 		// (2) covered fields: in memory == wire == stored
@@ -454,6 +454,9 @@ func c10Case(ch choose.Chooser, cfg walkCfg, rec *ev.Recorder) error {
 		rec.ClassN("perturbations", n)
 		if d != "" {
 			return fmt.Errorf("%s: %s\n  schedule: %s", desc, d, r.key())
+		}
+		if sub.Signer != verifSignerAddr {
+			rec.Class("certificates_signed_after_a_key_rotation")
 		}
 		nt := len(sub.InMem.BridgeExits) >= 1 && len(sub.InMem.ImportedBridgeExits) >= 1
 		rec.Case(nt, fmt.Sprintf("%+v|%s|%d", cfg.node, r.key(), k))
@@ -486,7 +489,7 @@ func TestC10(t *testing.T) {
 	rapid.Check(t, func(rt *rapid.T) {
 		ch := choose.Rapid{T: rt}
 		cfg := walkCfg{node: genNodeCfg(ch), steps: rapid.IntRange(8, 30).Draw(rt, "steps"),
-			weights: []int{0, 0, 0, 0, 1, 1, 1, 2, 4, 4, 4, 5, 7}}
+			weights: []int{0, 0, 0, 0, 1, 1, 1, 2, 4, 4, 4, 5, 7}, rotate: rapid.Bool().Draw(rt, "keyRotations")}
 		if err := c10Case(ch, cfg, rec); err != nil {
 			fatal(rt, "%v", err)
 		}
